@@ -228,6 +228,16 @@ def evaluateCore (pos : Position) (castledSelf castledOpp : Bool) (turn : Color)
   (sub f32 ppS ppO).bind fun pp =>
   combine mat pp
 
+/-- `Eval.Evaluate` with the mobility maps of the two `PositionPlay` calls summed in the orders `oS`, `oO`
+(`evaluateCore` is `evaluateCoreOrd id id`). -/
+def evaluateCoreOrd (oS oO : List (Nat × Nat) → List (Nat × Nat)) (pos : Position) (castledSelf castledOpp : Bool)
+    (turn : Color) : Option Q :=
+  (materialEvaluate pos turn).bind fun mat =>
+  (positionPlayOrd oS pos castledSelf turn).bind fun ppS =>
+  (positionPlayOrd oO pos castledOpp turn.opp).bind fun ppO =>
+  (sub f32 ppS ppO).bind fun pp =>
+  combine mat pp
+
 /-- `Eval.Evaluate`. -/
 def evaluate (w : World) (b : Nat) : Option Q :=
   let turn := (w.board b).turn
